@@ -29,6 +29,8 @@ META = {
 
 
 def run(ctx):
+    if ctx.replay:
+        return G.replay_one(ctx, "C02")
     sel, res = G.generate(ctx, "C02")
     ctx.extra["hazard_violated"] = res["hazard"].violated
     G.replay(ctx, "C02", sel)
